@@ -94,3 +94,79 @@ func init() {
 	}
 	propRegistry = append(propRegistry, c14)
 }
+
+var dbEnvStubs = map[string]string{
+	"(github.com/tailscale/setec/acl.Rules).Allow":                                  "verifAllowAll",
+	"tailscale.com/atomicfile.WriteFile":                                             "verifDiskWriteModel",
+	"os.ReadFile":                                                                    "verifStubReadFile",
+	"os.WriteFile":                                                                   "verifStubOSWriteFile",
+	"os.OpenFile":                                                                    "verifStubOpenFile",
+	"os.Stat":                                                                        "verifStubStat",
+	"os.CreateTemp":                                                                  "verifStubCreateTemp",
+	"os.Remove":                                                                      "verifStubRemove",
+	"os.Rename":                                                                      "verifStubRename",
+	"(*os.File).Name":                                                                "verifStubFileName",
+	"(*os.File).Write":                                                               "verifStubFileWrite",
+	"(*os.File).Chmod":                                                               "verifStubFileChmod",
+	"(*os.File).Sync":                                                                "verifStubFileSync",
+	"(*os.File).Close":                                                               "verifStubFileClose",
+	"bytes.NewReader":                                                                "verifStubBytesNewReader",
+	"(*bytes.Buffer).Write":                                                          "verifStubBufWrite",
+	"(*bytes.Buffer).Bytes":                                                          "verifStubBufBytes",
+	"github.com/tink-crypto/tink-go/v2/aead.XChaCha20Poly1305KeyTemplate":            "verifStubKeyTemplate",
+	"github.com/tink-crypto/tink-go/v2/keyset.NewHandle":                             "verifStubNewHandle",
+	"github.com/tink-crypto/tink-go/v2/aead.New":                                     "verifStubAEADNew",
+	"github.com/tink-crypto/tink-go/v2/keyset.NewBinaryWriter":                       "verifStubNewBinaryWriter",
+	"github.com/tink-crypto/tink-go/v2/keyset.NewBinaryReader":                       "verifStubNewBinaryReader",
+	"(*github.com/tink-crypto/tink-go/v2/keyset.Handle).WriteWithAssociatedData":     "verifStubWriteWithAD",
+	"github.com/tink-crypto/tink-go/v2/keyset.ReadWithAssociatedData":                "verifStubReadWithAD",
+}
+
+func withReal(m map[string]string, real ...string) map[string]string {
+	out := map[string]string{}
+	for k, v := range m {
+		out[k] = v
+	}
+	for _, r := range real {
+		out[r] = "real"
+	}
+	return out
+}
+
+func init() {
+	envNote := "file-system and tink are models (DESIGN §4.2/4.3); realising their faults natively needs ptrace fault injection"
+	c03 := &Property{ID: "C03", Pkgs: []string{"db"}, Bounds: map[string]string{"secrets_per_state": "2 / 3", "versions_per_secret": "2 / 3"}}
+	for _, n := range []string{"Put", "Activate", "DeleteVersion", "Delete", "Get"} {
+		c03.Harnesses = append(c03.Harnesses, &HarnessSpec{Name: "verifHarnessC03" + n, Pkg: "db", Stubs: dbEnvStubs,
+			Params: map[string]int{"secrets": 2, "versions": 2}, ThoroughParams: map[string]int{"secrets": 3, "versions": 3},
+			ExpectReach: []string{"end"}, NoNative: envNote,
+			Desc: "save pre-state, run DB." + n + " with save faults, reopen with the same key: loaded state equals the acknowledged state"})
+	}
+	c03.Harnesses = append(c03.Harnesses, &HarnessSpec{Name: "verifHarnessC03SchemaV1", Pkg: "db", Stubs: dbEnvStubs,
+		Params: map[string]int{"secrets": 2, "versions": 2}, ThoroughParams: map[string]int{"secrets": 3, "versions": 3},
+		ExpectReach: []string{"end-v1", "end-other-version"}, NoNative: envNote,
+		Desc: "a document built from the documented schema-v1 layout and contexts (pinned in the harness) opens with identical contents; other schema versions rejected; open never writes"})
+	propRegistry = append(propRegistry, c03)
+
+	c04 := &Property{ID: "C04", Pkgs: []string{"db"}, Bounds: map[string]string{"fault positions": "every FS call of atomicfile.WriteFile (stat, createtemp, write, chmod, sync, close, rename, remove): error and kill-before", "secrets_per_state": "2 / 3"}}
+	c04.Harnesses = append(c04.Harnesses, &HarnessSpec{Name: "verifHarnessC04WriteFile", Pkg: "db", Stubs: withReal(dbEnvStubs, "tailscale.com/atomicfile.WriteFile"),
+		Params: map[string]int{}, ExpectReach: []string{"end-crash", "end-error", "end-ok"}, NoNative: envNote,
+		Desc: "real tailscale.com/atomicfile.WriteFile over the FS model: a fault or a kill before every call"})
+	for _, n := range []string{"Put", "Activate", "DeleteVersion", "Delete"} {
+		c04.Harnesses = append(c04.Harnesses, &HarnessSpec{Name: "verifHarnessC04" + n, Pkg: "db", Stubs: dbEnvStubs,
+			Params: map[string]int{"secrets": 2, "versions": 2}, ThoroughParams: map[string]int{"secrets": 3, "versions": 3},
+			ExpectReach: []string{"end-fault", "end-no-fault"}, NoNative: envNote,
+			Desc: "DB." + n + " with a failing save: memory, generation and file unchanged; retry succeeds"})
+	}
+	c04.Harnesses = append(c04.Harnesses, &HarnessSpec{Name: "verifHarnessC04Create", Pkg: "db", Stubs: dbEnvStubs, Params: map[string]int{},
+		ExpectReach: []string{"end-error", "end-ok"}, NoNative: envNote, Desc: "database creation under faults of every step"})
+	propRegistry = append(propRegistry, c04)
+
+	c05 := &Property{ID: "C05", Pkgs: []string{"db"}, Bounds: map[string]string{"secrets_per_state": "2 / 3", "tamper classes": "foreign KEK, DB spliced from another database, DEK spliced, context swap, arbitrary bytes as DB, arbitrary bytes as DEK"}}
+	for _, n := range []string{"Confidential", "Tamper", "KEKList", "KEKGet", "KEKPut", "KEKActivate", "KEKDeleteVersion", "KEKDelete", "AuditFile"} {
+		c05.Harnesses = append(c05.Harnesses, &HarnessSpec{Name: "verifHarnessC05" + n, Pkg: "db", Stubs: dbEnvStubs,
+			Params: map[string]int{"secrets": 2, "versions": 2}, ThoroughParams: map[string]int{"secrets": 3, "versions": 3},
+			ExpectReach: []string{"end"}, NoNative: envNote, Desc: "at rest: " + n})
+	}
+	propRegistry = append(propRegistry, c05)
+}
